@@ -681,6 +681,13 @@ pub fn play_oracles(w: &World, mv: MMove, expect: &Model, cx: &mut Ctx) -> R {
     if rc.is_err() {
         return cx.fail("C02/panic/play_unchecked".into(), format!("{} at {}", mv.text(), at));
     }
+    // "playing any legal move yields ...": the checked entry points must play it too
+    if ra.is_err() {
+        cx.fail("C02/legal-move-not-playable/play".into(), format!("play({}) panicked on a legal move at {}", mv.text(), at))?;
+    }
+    if !matches!(rb, Ok(Ok(()))) {
+        cx.fail("C02/legal-move-not-playable/try".into(), format!("try_play({}) refused a legal move at {}", mv.text(), at))?;
+    }
     if ra.is_ok() && a != c {
         cx.fail("C02/variants-disagree/play".into(), format!("{} at {}", mv.text(), at))?;
     }
